@@ -222,9 +222,11 @@ func c02Case(t *testing.T, id int, seed uint64, out *Out) {
 	}
 	var tip *int
 	nblob := 0
+	lastTree := -1
 	push := func() int {
 		nblob++
-		c := b.AddCommit(tip, b.AddTree([]WFile{{"README", nblob}}), ip(mainSigner(pol)))
+		lastTree = b.AddTree([]WFile{{"README", nblob}})
+		c := b.AddCommit(tip, lastTree, ip(mainSigner(pol)))
 		tip = ip(c)
 		return b.Push(main, c, ip(mainSigner(pol)))
 	}
@@ -239,10 +241,29 @@ func c02Case(t *testing.T, id int, seed uint64, out *Out) {
 			pushes = append(pushes, push())
 		}
 		if s < nStates-1 {
+			// one policy update in three is recorded INSIDE a recovery window: after a violating push
+			// that is revoked later and before the push that restores the last good tree
+			window := len(pushes) > 0 && lastTree >= 0 && r.Chance(35)
+			badEntry, goodTree := -1, lastTree
+			if window {
+				nblob++
+				c := b.AddCommit(tip, b.AddTree([]WFile{{"README", nblob}}), ip(kOutsider))
+				tip = ip(c)
+				badEntry = b.Push(main, c, ip(kOutsider))
+				meta += "window["
+			}
 			var what string
 			pol, what = c02Mutate(r, pol)
 			meta += what + ","
 			b.AddPolicy(pol, r.Chance(60))
+			if window {
+				b.Annotate([]int{badEntry}, true, ip(mainSigner(pol)))
+				c := b.AddCommit(tip, goodTree, ip(mainSigner(pol)))
+				tip = ip(c)
+				pushes = append(pushes, b.Push(main, c, ip(mainSigner(pol))))
+				lastTree = goodTree
+				meta += "],"
+			}
 		}
 	}
 	if len(pushes) == 0 || r.Chance(60) {
